@@ -266,8 +266,7 @@ def check(run):
     for h, s, k in ff:  # the property failed on the real code
         r = results[h]
         key = finding_key(r, s, k)
-        if key and run.known_finding(key, 'key=%s %s (%s copy; e.g. head %s, proof height %s)' % (
-                key, KINDS[k], COPY[s], r['spec']['head'], r['spec']['height'])):
+        if key and run.known_finding(key, 'key=%s %s' % (key, KINDS[k])):
             continue
         sig = (key, k)
         if sig in reported:
